@@ -570,6 +570,22 @@ func execute(r *core.Run, c *Case, routes bool) {
 		return
 	}
 	r.Count("revocation-route", 1)
+	if c.TS {
+		// validity periods are no part of what a TSA chain must meet: an authentic
+		// signing time outside every one of them changes nothing about the chain
+		// the validator demands
+		outside := time.Date(1987, 6, 5, 4, 3, 2, 0, time.UTC)
+		if len(c.Items)%2 == 1 {
+			outside = time.Date(2099, 6, 5, 4, 3, 2, 0, time.UTC)
+		}
+		rs, rerr = v.ValidateContext(context.Background(), revocation.ValidateContextOptions{CertChain: certs, AuthenticSigningTime: outside})
+		r.Eval(1)
+		if refNoTime != (rerr == nil) || (rerr != nil && (!sims.IsInvalidChain(rerr) || rs != nil)) {
+			r.Violation("revocation-validator-with-signing-time:"+sigOf(c, rerr == nil, refNoTime), fmt.Sprintf("%s: revocation validator for timestamping, authentic signing time %s: err=%v, the reference predicate says %v", c.desc(), outside.Format(time.RFC3339), rerr, refNoTime), c)
+			return
+		}
+		r.Count("revocation-route-with-signing-time", 1)
+	}
 	// the same through validators with all-default transports (these chains name
 	// no responders or distribution points: nothing is contacted); the
 	// code-signing one is always created first, the timestamping one second
